@@ -46,7 +46,9 @@ func c11SharedSub() *engine.Sub {
 	return &engine.Sub{
 		Name: "literal-shares-nodes-with-data",
 		Rule: "== statements (bare, under not, under all, inside a list literal) whose literal is THE SAME node object as the value its selector resolves to, for 13 values (lists and maps with and without a NaN at depth 1..3, scalars, links, empty containers): Match and PartialMatch must equal those obtained with a separately built equal literal (the outcome depends on values, not on node identity), and where the classical reading decides (no NaN involved) they must be the classical truth; non-trivial = values holding a NaN",
-		Bound: func(string) string { return fmt.Sprintf("%d values x 4 statement forms x {shared, rebuilt} literal", len(vals)) },
+		Bound: func(string) string {
+			return fmt.Sprintf("%d values x 4 statement forms x {shared, rebuilt} literal", len(vals))
+		},
 		Gen: func(tier string, emit func(any) bool) {
 			for v := range vals {
 				for f := 0; f < 4; f++ {
